@@ -41,7 +41,7 @@ def main(run):
     run.rule = ("window sizes k in {1,2,3,4,5,8,13,64} (thorough also 100, 257), streams of length up to 5k+3 in 9 value "
                 "patterns / numeric types; after EVERY update get(), mean, var, std are compared with the exact statistics "
                 "(rational arithmetic) of values[-min(n,k):], tolerance 1e-12*scale; construction on the interpreter's NumPy is "
-                "part of the monitored behaviour; evaluations = comparisons; non-trivial = prefixes with n > k (window "
+                "part of the monitored behaviour; window sizes given as NumPy integers (int8..intp) with streams longer than the type's range, one tracker fed 7e4 (thorough 3e5) values, bound update methods taken early, SlidingWindowTracker as base of a MultiValueTracker with late keys; evaluations = comparisons; non-trivial = prefixes with n > k (window "
                 "has slid) and >= 2 distinct values in the window, distinct by (k, pattern, draw, n)")
     run.assumptions = ["no NaN values are supplied (the statement speaks of the values supplied; NaN is the tracker's own padding)"]
     try:
